@@ -220,6 +220,7 @@ rr_handle!(u64, u64);
 rr_handle!(u64, u32);
 rr_handle!(u32, u64);
 rr_handle!(u32, u32);
+rr_handle!([CustomPayloadMarker], [CustomPayloadMarker]);
 
 macro_rules! bb_handle {
     ($K:ty) => {
@@ -398,8 +399,13 @@ fn ev_call(node: &Node<S>, name: &ServiceName, r: &Req, mode: Mode) -> HRes {
 }
 
 macro_rules! rr_go {
-    ($node:expr, $name:expr, $Q:ty, $R:ty, $r:expr, $mode:expr) => {{
-        let mut bld = $node.service_builder($name).request_response::<$Q, $R>();
+    ($node:expr, $name:expr, $Q:ty, $R:ty, $r:expr, $mode:expr) => {
+        rr_go!($node, $name, $Q, $R, $r, $mode, |b| b)
+    };
+    ($node:expr, $name:expr, $Q:ty, $R:ty, $r:expr, $mode:expr, $fix:expr) => {{
+        let b0: iceoryx2::service::builder::request_response::Builder<$Q, (), $R, (), S> = $node.service_builder($name).request_response::<$Q, $R>();
+        #[allow(unused_mut)]
+        let mut bld = $fix(b0);
         if let Some(v) = $r.num("so") { bld = bld.enable_safe_overflow_for_requests(v == 1); }
         if let Some(v) = $r.num("sr") { bld = bld.enable_safe_overflow_for_responses(v == 1); }
         if let Some(v) = $r.num("ff") { bld = bld.enable_fire_and_forget_requests(v == 1); }
@@ -416,8 +422,24 @@ macro_rules! rr_go {
         res
     }};
 }
+fn rr_detail(t: &str) -> TypeDetail {
+    match t {
+        "u64" => TypeDetail::new::<u64>(TypeVariant::FixedSize),
+        "u32" => TypeDetail::new::<u32>(TypeVariant::FixedSize),
+        _ => custom_detail(t),
+    }
+}
 fn rr_call(node: &Node<S>, name: &ServiceName, r: &Req, mode: Mode) -> HRes {
-    match (r.get("qt").unwrap_or("u64"), r.get("pt").unwrap_or("u64")) {
+    let (qt, pt) = (r.get("qt").unwrap_or("u64"), r.get("pt").unwrap_or("u64"));
+    if qt.starts_with('x') || pt.starts_with('x') {
+        // the instantiation of the language bindings: both payload details given at run time
+        let (qd, pd) = (rr_detail(qt), rr_detail(pt));
+        return rr_go!(node, name, [CustomPayloadMarker], [CustomPayloadMarker], r, mode,
+            |b: iceoryx2::service::builder::request_response::Builder<[CustomPayloadMarker], (), [CustomPayloadMarker], (), S>| unsafe {
+                b.__internal_set_request_payload_type_details(&qd).__internal_set_response_payload_type_details(&pd)
+            });
+    }
+    match (qt, pt) {
         ("u64", "u64") => rr_go!(node, name, u64, u64, r, mode),
         ("u64", _) => rr_go!(node, name, u64, u32, r, mode),
         (_, "u64") => rr_go!(node, name, u32, u64, r, mode),
@@ -434,6 +456,10 @@ macro_rules! bb_go {
                 if let Some(v) = $r.num("mn") { bld = bld.max_nodes(v); }
                 for i in 0..$r.num("e").unwrap_or(1) {
                     bld = bld.add::<u64>(i as $K, 7 + i as u64);
+                }
+                if $r.num("dup").unwrap_or(0) == 1 {
+                    // the same key twice: refused while the management segment is filled, i.e. after the static config exists
+                    bld = bld.add::<u64>(0 as $K, 99);
                 }
                 bld.create_with_attributes(&$r.specifier()).map(|f| Box::new(f) as Box<dyn Handle>).map_err(|e| format!("{e:?}"))
             }
